@@ -3598,7 +3598,9 @@ void AddDefSymbol(char* Name, TempResult* Value) {
     Neu            = (PDefSymbol)malloc(sizeof(TDefSymbol));
     Neu->Next      = FirstDefSymbol;
     Neu->SymName   = as_strdup(Name);
-    Neu->Wert      = (*Value);
+    /* own copy: the caller releases Value (and a string's buffer with it) */
+    as_tempres_ini(&Neu->Wert);
+    as_tempres_copy(&Neu->Wert, Value);
     FirstDefSymbol = Neu;
 }
 
@@ -3624,6 +3626,7 @@ void RemoveDefSymbol(char* Name) {
         Lauf->Next = Lauf->Next->Next;
     }
     free(Save->SymName);
+    as_tempres_free(&Save->Wert);
     free(Save);
 }
 
